@@ -181,7 +181,11 @@ def parent(args) -> int:
                 tail = (run_dir / f"shard{i}.log").read_text()[-1500:]
                 problems.append(f"shard {i}: no result (rc={p.returncode}) {tail}")
                 continue
-            r = json.loads(out.read_text())
+            try:
+                r = json.loads(out.read_text())
+            except ValueError as e:
+                problems.append(f"shard {i}: unreadable result file ({e})")
+                continue
             if not r.get("ok"):
                 problems.append(f"shard {i}: harness error: {r.get('error', '')[-1500:]}")
                 continue
@@ -271,7 +275,18 @@ def main() -> int:
     args.prop = args.prop.upper()
     if args.shard is not None:
         return worker(args)
-    return parent(args)
+    try:
+        return parent(args)
+    except SystemExit:
+        raise
+    except BaseException as e:  # noqa: BLE001
+        # a crash of the orchestration itself says nothing about the property: inconclusive, never exit 1
+        import traceback
+
+        print(f"INCONCLUSIVE property={args.prop} reason=harness crashed in the parent process: "
+              f"{type(e).__name__}: {str(e)[:300]}")
+        traceback.print_exc()
+        return 2
 
 
 if __name__ == "__main__":
